@@ -25,7 +25,8 @@ type vGateWorld struct {
 	base   map[string]*userProfile
 }
 
-var vGateUsers = []string{"alice", "root", "auto", "bob", "svc", "carol", "admin2"}
+// the capitalised names are accounts of their own (target class "othercase"), nobody's alias
+var vGateUsers = []string{"alice", "root", "auto", "bob", "svc", "carol", "admin2", "Alice", "Root", "Auto", "Svc"}
 
 func newGateWorld(webui []string) *vGateWorld {
 	w := newWorld(vWorldOpts{CertCfg: []string{"password", "U2F", "IPCertificate"}, WebUICfg: webui, AdminUsers: []string{"root", "admin2"}, CLITokens: true})
@@ -199,6 +200,8 @@ func (g *vGateWorld) probe(c map[string]interface{}, idx int) map[string]interfa
 		if actor == "root" {
 			target = "admin2"
 		}
+	case "othercase": // somebody else whose name is the actor's in another case
+		target = strings.ToUpper(actor[:1]) + actor[1:]
 	}
 	method := vStr(c, "method")
 	q := vReq{Method: method, Headers: map[string]string{}}
